@@ -138,6 +138,23 @@ def native_verdict(oracle, txt):
     else:
         if pos != nbytes:
             out.append(('C01', 'leaf-ranges', 'leaves end at %d, text has %d bytes' % (pos, nbytes)))
+    namelike = {syn.KINDS[k]: k for k in synspecs.NAME_LIKE if k in syn.KINDS}
+    st = [par['tree']]
+    while st:
+        x = st.pop()
+        if isinstance(x, list):
+            if x[0] in namelike and len(x) - 1 > 1:
+                toks = []
+                q = [x]
+                while q:
+                    y = q.pop()
+                    if isinstance(y, dict):
+                        toks.append(y)
+                    else:
+                        q.extend(y[1:])
+                out.append(('C20', 'name-node', 'a %s node covers bytes %d..%d in %d children (not one identifier token)' % (namelike[x[0]], min(t['s'] for t in toks), max(t['e'] for t in toks), len(x) - 1)))
+                break
+            st.extend(x[1:])
     b = txt.encode('utf-8')
     for s, e, k in par['errors']:
         if not (0 <= s <= e <= nbytes):
